@@ -160,3 +160,50 @@ def rule_alloc_inv(facts):
     r.info = {"run-time sized": users}
     r.require_floor(sized, facts, "ALLOC-INV.sized", "run-time sized allocation calls (the Container impls)")
     return r
+
+
+# ====================================================================== OVERRIDE-INV
+
+OVERRIDES_ALLOWED = {
+    # (trait, self type head, method): reason
+    ("Parser", "Boxed", "boxed"): "boxing a Boxed parser returns it unchanged (HELPER-PROV group `recursive` pins nothing here: body is `self`)",
+}
+
+
+def rule_override_inv(facts):
+    """ENTRY / GRAMMAR / MODE-PAIR decide the PROVIDED bodies of Parser, IterParser, ConfigParser, ConfigIterParser (parse, check, boxed,
+    map, repeated, go_emit_cfg ...).  They speak for every parser type only if no impl replaces a provided method with its own body."""
+    r = RuleResult("OVERRIDE-INV")
+    n = 0
+    seen = set()
+    for im in facts.impls:
+        tr = im.get("trait")
+        if tr not in ("Parser", "IterParser", "ConfigParser", "ConfigIterParser") or tr not in facts.traits:
+            continue
+        dflt = {it["name"] for it in facts.traits[tr]["items"] if it.get("has_default") and it["kind"] == "AssocFn"}
+        head = re.sub(r"^&\s*", "&", re.sub(r"<.*", "", im["self_ty"])).split("::")[-1]
+        n += 1
+        for it in im["items"]:
+            if it["name"] not in dflt:
+                continue
+            k = (tr, head, it["name"])
+            seen.add(k)
+            ok = k in OVERRIDES_ALLOWED
+            r.ob(ok)
+            if not ok:
+                r.violations.append(V("OVERRIDE-INV", "%s[%s]::%s" % (im["self_ty"], tr, it["name"]), "overrides a provided method",
+                                      "impl %s replaces the provided method `%s::%s` with its own body: the rules that decide what "
+                                      "`%s` does (ENTRY for parse/check, GRAMMAR for the builders, MODE-PAIR for the forwarders) analyse the "
+                                      "trait's body, which this type no longer runs - e.g. `boxed()` on the weak handle inside "
+                                      "`recursive(|p| ..)` must not touch the not-yet-defined parser"
+                                      % (im.get("trait_full") or im["self_ty"], tr, it["name"], it["name"]), im.get("file"), im.get("line")))
+    for k in OVERRIDES_ALLOWED:
+        if k not in seen:
+            r.errors.append("anchor: expected override %s::%s for %s not found" % (k[0], k[2], k[1]))
+    r.ob(True)
+    r.explanation = ("%d impls of Parser / IterParser / ConfigParser / ConfigIterParser: the only provided method replaced by an impl is "
+                     "Boxed::boxed (returns self)" % n)
+    r.nontrivial = n
+    r.info = {"impls": n, "overrides": sorted("%s %s::%s" % k for k in seen)}
+    r.require_floor(n, facts, "OVERRIDE-INV.impls", "parser trait impls")
+    return r
